@@ -53,14 +53,24 @@ func c09Cmd(args []string) {
 			continue
 		}
 		var spec struct {
-			Args string `json:"args"`
-			Yml  bool   `json:"yml"`
-			Tag  string `json:"tag"`
+			Args   string `json:"args"`
+			Yml    bool   `json:"yml"`
+			Tag    string `json:"tag"`
+			Every  int    `json:"every"`  // per-line sampling (0 = the command's)
+			MaxInt int    `json:"maxint"` // per-line cap of always-emitted days per kind (0 = the command's)
+			MaxAll int    `json:"maxall"` // per-line cap of emitted days (0 = none)
 		}
 		if err := json.Unmarshal(sc.Bytes(), &spec); err != nil {
 			panic(err)
 		}
-		c09Line(*work, spec.Args, spec.Yml, spec.Tag, lineNo, r, *every, *maxInteresting)
+		ev, mi := *every, *maxInteresting
+		if spec.Every > 0 {
+			ev = spec.Every
+		}
+		if spec.MaxInt > 0 {
+			mi = spec.MaxInt
+		}
+		c09Line(*work, spec.Args, spec.Yml, spec.Tag, lineNo, r, ev, mi, spec.MaxAll)
 		lineNo++
 	}
 }
@@ -102,7 +112,7 @@ func c09Maxup(c hermes.CropType, phyllo, tendsum float64) float64 {
 	return maxup
 }
 
-func c09Line(work, line string, yml bool, tag string, lineNo int, r *rng, every, maxInteresting int) {
+func c09Line(work, line string, yml bool, tag string, lineNo int, r *rng, every, maxInteresting, maxAll int) {
 	var pre hermes.GlobalVarsMain
 	havePre := false
 	var shadow hermes.CropSharedVars
@@ -173,6 +183,9 @@ func c09Line(work, line string, yml bool, tag string, lineNo int, r *rng, every,
 				} else {
 					hermes.ReadCropParamClassic(pn, &shadow, &g2)
 				}
+				if pre.CropOverwrite != nil {
+					pre.CropOverwrite.OverwriteCropParameters(pn, &g2, &shadow)
+				}
 				shadowOK = sameFs(g2.TSUM[:], g.TSUM[:]) && sameFs(g2.BAS[:], g.BAS[:]) && g2.NRKOM == g.NRKOM
 				// initial organ masses and N concentrations: a second read of the same file into a FRESH state (no rotation history)
 				// gives the values of the file; the read at this rotation position must install exactly these unless a
@@ -185,6 +198,9 @@ func c09Line(work, line string, yml bool, tag string, lineNo int, r *rng, every,
 						hermes.ReadCropParamYml(pn, &l0, &g0)
 					} else {
 						hermes.ReadCropParamClassic(pn, &l0, &g0)
+					}
+					if pre.CropOverwrite != nil {
+						pre.CropOverwrite.OverwriteCropParameters(pn, &g0, &l0)
 					}
 					carried := g2.DAUERKULT && pre.AKF.Num > 2 && pre.FRUCHT[ai] == pre.FRUCHT[ai-1]
 					wantW, wantG, wantR := g0.WORG, g0.GEHOB, g0.WUGEH
@@ -543,7 +559,7 @@ func c09Line(work, line string, yml bool, tag string, lineNo int, r *rng, every,
 					take = true
 				}
 			}
-			if !take {
+			if !take || (maxAll > 0 && emitted >= maxAll && r.intn(8) != 0) {
 				return
 			}
 			emitted++
